@@ -13,24 +13,26 @@
 EXTENDS C02_AvCache, IOUtils
 
 Trace == JsonDeserialize(IOEnv.TRACE_FILE)
-VARIABLES l, bad, drift
+VARIABLES l, bad, drift, loose
 Ev == Trace[l]
 Flag(clause) == Append(bad, [i |-> l, clause |-> clause])
 ToSetOf(s) == {s[i] : i \in DOMAIN s}
 
-TInit == l = 1 /\ bad = <<>> /\ drift = <<>> /\ Init
+TInit == l = 1 /\ bad = <<>> /\ drift = <<>> /\ loose = FALSE /\ Init
 
 ProjOK == \/ Ev.op \in {"Reset"}
           \/ \A i \in DOMAIN insts' : i \in DOMAIN Ev.proj =>
                 /\ Ev.proj[i].top = Len(insts'[i].levels) - 1
-                /\ ToSetOf(Ev.proj[i].comp) = {k \in 0..(Len(insts'[i].levels) - 1) :
+                /\ loose \/ Ev.op = "Interrupted" \/ ToSetOf(Ev.proj[i].comp) = {k \in 0..(Len(insts'[i].levels) - 1) :
                                                  \E p \in DOMAIN insts'[i].levels[k + 1] : insts'[i].levels[k + 1][p] = Compacted}
+\* (loose: an interrupted call may have stopped inside the compaction loop; from then on only the number of levels is compared)
 Judge(ok) == /\ bad' = IF ok THEN bad ELSE Flag("ReplyCorrect")
              /\ drift' = IF ProjOK THEN drift ELSE Append(drift, l)
+             /\ loose' = (loose \/ Ev.op = "Interrupted")
 
 TReset == /\ Ev.op = "Reset"
           /\ insts' = <<>> /\ cc' = [b \in DOMAIN Bases |-> 0] /\ its' = <<>> /\ fault' = FALSE
-          /\ act' = A("Init", 0, 0, <<>>) /\ reply' = NoReply /\ UNCHANGED <<bad, drift>>
+          /\ act' = A("Init", 0, 0, <<>>) /\ reply' = NoReply /\ UNCHANGED <<bad, drift>> /\ loose' = FALSE
 TNewAv == Ev.op = "NewAv" /\ NewAv(Ev.b) /\ Judge(Ev.res = reply'.n)
 TClear == Ev.op = "ClearCache" /\ ClearCache /\ Judge(TRUE)
 TCount == Ev.op = "Count" /\ Count(Ev.i, Ev.n) /\ Judge(Ev.res = reply'.n)
@@ -38,6 +40,18 @@ TOfLength == Ev.op = "OfLength" /\ OfLength(Ev.i, Ev.n) /\ Judge(ToSetOf(Ev.res)
 TEnum == Ev.op = "Enumeration" /\ Enumeration(Ev.i, Ev.n) /\ Judge(Ev.res = reply'.seq)
 TMember == Ev.op = "Member" /\ Member(Ev.i, Ev.q) /\ Judge(Ev.res = reply'.flag)
 TSub == Ev.op = "IsSubclass" /\ IsSubclass(Ev.i, Ev.j) /\ Judge(Ev.res = reply'.flag)
+\* a call for level Ev.n that was interrupted (KeyboardInterrupt at some line of the class's code) and left levels 0..Ev.top:
+\* whole levels of the class, as the following events will find out; leaving fewer levels than before or more than asked for
+\* is not an admissible outcome of an interrupted call
+TInterrupted == /\ Ev.op = "Interrupted"
+                /\ IF Len(insts[Ev.i].levels) - 1 <= Ev.top /\ Ev.top <= IMax(Ev.n, Len(insts[Ev.i].levels) - 1)
+                   THEN InterruptedTo(Ev.i, Ev.top) /\ Judge(TRUE)
+                   ELSE UNCHANGED vars /\ Judge(FALSE)
+\* membership of a permutation far longer than anything enumerated (the class object is fresh: a cold jump of a thousand
+\* levels); judged by the definition alone, the mechanism state of that object is not followed
+TLongMember == /\ Ev.op = "LongMember"
+               /\ UNCHANGED vars
+               /\ Judge(~Ev.raised /\ Ev.res = \A b \in Bases[Ev.b].elems : ~PContainsQ(Ev.q, b))
 TOpenOf == Ev.op = "OpenOf" /\ OpenOf(Ev.i, Ev.n) /\ Judge(TRUE)
 TOpenUpTo == Ev.op = "OpenUpTo" /\ OpenUpTo(Ev.i, Ev.n) /\ Judge(TRUE)
 TOpenFirst == Ev.op = "OpenFirst" /\ OpenFirst(Ev.i, Ev.n) /\ Judge(TRUE)
@@ -55,6 +69,6 @@ TNextIt ==
 
 TNext == /\ l <= Len(Trace) /\ l' = l + 1
          /\ (TReset \/ TNewAv \/ TClear \/ TCount \/ TOfLength \/ TEnum \/ TMember \/ TSub
-             \/ TOpenOf \/ TOpenUpTo \/ TOpenFirst \/ TNextIt)
+             \/ TOpenOf \/ TOpenUpTo \/ TOpenFirst \/ TNextIt \/ TInterrupted \/ TLongMember)
 TraceDone == l = Len(Trace) + 1 => PrintT(ToJson([verdict |-> bad, drift |-> drift, n |-> Len(Trace)]))
 =============================================================================
